@@ -28,34 +28,34 @@ def _zvars(ctx):
 
 
 def slice_hyps(ctx, goal, extra=()):
-    """hypotheses relevant for `goal`: everything about input variables only, plus the defining constraints of every
-    derived variable reachable from the goal"""
+    """hypotheses relevant for `goal`: everything about input variables only, plus - transitively - the *defining*
+    constraints of every derived variable the goal mentions.  A constraint is the definition of the youngest derived
+    variable occurring in it (definitions only refer to older variables), so facts about unrelated younger variables
+    that merely mention a needed one are left out."""
     derived = set(ctx.vardef)
     need = set(f_vars(goal)) & derived
     for e in extra:
         need |= set(f_vars(e)) & derived
-    pool = [(h, f_vars(h)) for h in ctx.hyps]
     chosen = []
-    rest = []
-    for h, vs in pool:
-        if not (vs & derived):
+    byowner = {}
+    for h in ctx.hyps:
+        vs = f_vars(h) & derived
+        if not vs:
             chosen.append(h)
         else:
-            rest.append((h, vs))
-    changed = True
-    while changed:
-        changed = False
-        nxt = []
-        for h, vs in rest:
-            if vs & need:
-                chosen.append(h)
-                new = (vs & derived) - need
-                if new:
-                    need |= new
-                changed = True
-            else:
-                nxt.append((h, vs))
-        rest = nxt
+            byowner.setdefault(max(vs), []).append((h, vs))
+    todo = sorted(need, reverse=True)
+    seen = set()
+    while todo:
+        v = todo.pop()
+        if v in seen:
+            continue
+        seen.add(v)
+        for h, vs in byowner.get(v, ()):
+            chosen.append(h)
+            for w in vs:
+                if w not in seen:
+                    todo.append(w)
     return chosen
 
 
@@ -150,3 +150,50 @@ def prove(ctx, goal, extra=(), timeout_ms=None, use_cvc5=True, want_model=True, 
 def satisfiable(ctx, formulas, timeout_ms=10000):
     st, model, dt, _ = check_sat(ctx, formulas, timeout_ms, True)
     return st, model
+
+
+def radical_tactic(ctx, goal, extra=(), timeout_ms=None):
+    """goal  K*r - P == 0  with r the youngest radical (r >= 0, r^2 = E) occurring linearly and K of known strict sign:
+    it suffices that  P/K >= 0  and  P^2 == K^2 * E   (both sides non-negative with equal squares)."""
+    from .poly import Poly
+    from .symreal import f_rel
+    if goal[0] != "rel" or goal[1] != "==":
+        return None
+    g = goal[2]
+    rads = sorted([v for v in g.vars() if v in ctx.radicals], reverse=True)
+    for r in rads[:2]:
+        K = {}
+        P = {}
+        ok = True
+        for m, c in g.t.items():
+            e = dict(m).get(r, 0)
+            if e == 0:
+                P[m] = -c
+            elif e == 1:
+                K[tuple((v, k) for v, k in m if v != r)] = c
+            else:
+                ok = False
+                break
+        if not ok or not K:
+            continue
+        K, P = Poly(K), Poly(P)
+        sK = ctx.poly_sign(K)
+        if sK not in ("+", "-"):
+            continue
+        if sK == "-":
+            K, P = -K, -P
+        sq = ctx.reduce(P * P - K * K * ctx.radicals[r])
+        t = 0.0
+        if not sq.is_zero():
+            r1 = prove(ctx, f_rel(sq, "=="), extra, timeout_ms, use_cvc5=False, want_model=False)
+            t += r1["t"]
+            if r1["status"] != "proved":
+                continue
+        sP = ctx.poly_sign(P)
+        if sP not in ("+", "0+"):
+            r2 = prove(ctx, f_rel(P, ">="), extra, timeout_ms, use_cvc5=False, want_model=False)
+            t += r2["t"]
+            if r2["status"] != "proved":
+                continue
+        return dict(status="proved", by="radical-squaring+z3", t=t)
+    return None
